@@ -146,3 +146,7 @@ fn recursive_anchor_in_progress(id: usize) -> bool { unimplemented!() }
 fn error_multiple_documents(hint: &'static str) -> (r: Error)
     ensures r is MultipleDocuments,
 { unimplemented!() }
+
+// the snippet-attaching wrappers used by the entry points of src/lib.rs (local closures / helper); opaque: they only decorate the error
+#[verifier::external_body] fn attach_snippet(e: Error) -> Error { unimplemented!() }
+#[verifier::external_body] fn maybe_with_snippet(e: Error, input: &str, with_snippet: bool, crop_radius: usize) -> Error { unimplemented!() }
